@@ -607,7 +607,7 @@ def transform_fn(text, spec):
     for frm, to in spec.get('rewrites', []):
         if '{id}' in frm:
             # `{id}` stands for one identifier (so that a renamed receiver does not lose the anchor)
-            rx = re.compile(re.escape(frm).replace(re.escape('{id}'), r'([A-Za-z_][A-Za-z0-9_]*)'))
+            rx = re.compile(re.escape(frm).replace(re.escape('{id}'), r'([A-Za-z_][A-Za-z0-9_]*)').replace(r'\.', r'\s*\.\s*'))     # method chains may be broken over lines
             hits = [mm for mm in rx.finditer(t) if sh.bopen < mm.start() < sh.bclose]
             if not hits:
                 raise ExtractError('R11: text to rewrite not found: %s' % frm)
